@@ -222,6 +222,33 @@ def run(ctx):
                 problems.append((f"{fam.name}: footprint with an absent axis type did not refuse", {}, None))
             except ValueError:
                 pass
+    # a spectral axis coupled to both pixel axes with opposite signs: its extremes are NOT at the all-lower / all-upper corners
+    import astropy.units as u
+    from astropy import coordinates as coord
+    from astropy.modeling import models
+    from gwcs import wcs as gw, coordinate_frames as cf
+    for _ in range(3 if ctx.quick else 40):
+        cx, cy = rng.choice([2.0, 1.0, -1.5]), rng.choice([-3.0, -0.5, 4.0])
+        sky = (models.Shift(-10) & models.Shift(-12) | models.Scale(1e-3) & models.Scale(1e-3) | models.Pix2Sky_TAN() |
+               models.RotateNative2Celestial(30, 40, 180))
+        tr = models.Mapping((0, 1, 0, 1)) | sky & models.Polynomial2D(1, c0_0=100.0, c1_0=cx, c0_1=cy)
+        det = cf.Frame2D(name="detector")
+        out = cf.CompositeFrame([cf.CelestialFrame(reference_frame=coord.ICRS(), axes_order=(0, 1), name="sky"),
+                                 cf.SpectralFrame(axes_order=(2,), unit=(u.um,), name="wave")], name="world")
+        w3 = gw.WCS([(det, tr), (out, None)])
+        bb = ((1.0, 5.0 + rng.randint(0, 4)), (1.0, 3.0 + rng.randint(0, 4)))
+        w3.bounding_box = bb
+        corners = [(x, y) for x in bb[0] for y in bb[1]]
+        lam = [100.0 + cx * x + cy * y for x, y in corners]
+        try:
+            r = np.sort(np.ravel(np.asarray(w3.footprint(axis_type="spectral"), dtype=float)))
+            ctx.case(key=("fp-coupled", cx, cy, bb), nontrivial=True, kind="footprint/coupled-spectral",
+                     sample={"lam": f"100 + {cx} x + {cy} y", "box": bb, "range": r.tolist()})
+            if not np.allclose(r, [min(lam), max(lam)], rtol=0, atol=1e-9):
+                problems.append((f"footprint(axis_type='spectral') of lam = 100 + {cx} x + {cy} y over box {bb} is {r.tolist()}, the range over "
+                                 f"the corners is [{min(lam)}, {max(lam)}]", {"cx": cx, "cy": cy, "box": bb}, None))
+        except Exception as e:  # noqa
+            problems.append((f"footprint(axis_type='spectral') raised {type(e).__name__}: {e}", {"box": bb}, None))
     seen = set()
     for what, rep, key in problems:
         kk = key or what[:40]
